@@ -4,10 +4,11 @@
 (* Two layers over one vocabulary (the event log that the recording proxy party of            *)
 (* vh/proxynet.py writes: dial / tls / msg / reply / pclose / start / end):                   *)
 (*                                                                                            *)
-(*   RULES  the property, as sets  Bad_<Clause>(c, log)  of offending log positions.  They    *)
-(*          only look at what the two parties (Proxy, Origin) saw and at the outcome handed   *)
-(*          to the caller.  The same operators are the INVARIANTs of the model below and the  *)
-(*          verdict of the trace monitor (Proxy_Trace.tla) on logs recorded from real code.   *)
+(*   RULES  the property, as predicates Off_<Clause>(c, log, i) "position i offends" (and the  *)
+(*          sets Bad_<Clause>(c, log) of offending positions).  They only look at what the    *)
+(*          two parties (Proxy, Origin) saw and at the outcome handed to the caller.  The     *)
+(*          same operators are the INVARIANTs of the model below and the verdict of the       *)
+(*          trace monitor (Proxy_Trace.tla) on logs recorded from the real code.              *)
 (*   MODEL  what urllib3 does, one action per real step of ProxyManager.urlopen /             *)
 (*          connection_from_host, HTTPConnectionPool.urlopen (_get_conn, _prepare_proxy on    *)
 (*          closed connections only, proxy-header merge only when not tunnelling),            *)
